@@ -128,6 +128,18 @@ impl FxTracker {
             });
         }
 
+        if other_fxt.amount.is_zero() {
+            // We can't determine an exchange rate from this (and would divide by
+            // zero below)
+            return Err(SheetParseError::new(
+                fxt_row.row_num,
+                format!(
+                    "FXT on {} has a {} amount of zero",
+                    other_fxt.trade_date, other_fxt.currency
+                ),
+            ));
+        }
+
         let rate = (cad_fxt.amount / other_fxt.amount).abs();
 
         let tx = FxTracker::fx_tx(
